@@ -65,11 +65,12 @@ class SimLoop(asyncio.SelectorEventLoop):
         try:
             return super().run_forever()
         finally:
-            sim.loop_log.append(('run-exit', self.sim_name, gen, sim.steps, sim.now,
-                                 me.name if me else None))
+            # unwinding of an aborted world is not an observation of the program
+            sim.loop_log.append(('run-abort' if sim.aborted else 'run-exit', self.sim_name, gen,
+                                 sim.steps, sim.now, me.name if me else None))
 
     def close(self):
-        if not self.is_closed():
+        if not self.is_closed() and not self.sim.aborted:
             self.sim.loop_log.append(('close', self.sim_name, self.run_gen,
                                       self.sim.steps, self.sim.now, None))
         super().close()
